@@ -462,7 +462,10 @@ def evaluate_z3_mod(
     if not z3.is_mod(expr):
         return Nothing
 
-    return Some(construct_result(lambda args: args[0] % args[1], children_results))
+    # SMT-LIB: the remainder is never negative, whatever the sign of the divisor.
+    return Some(
+        construct_result(lambda args: args[0] % abs(args[1]), children_results)
+    )
 
 
 def evaluate_z3_pow(
@@ -662,9 +665,14 @@ def is_valid(formula: z3.BoolRef, timeout: int = 500) -> ThreeValuedTruth:
         else:
             return ThreeValuedTruth.unknown()
 
+    try:
+        fast_evaluation_result = evaluate_z3_expression(formula)
+    except ZeroDivisionError:
+        # Division by zero is an uninterpreted value in SMT-LIB: ask Z3.
+        return solve_using_z3()
+
     return (
-        evaluate_z3_expression(formula)
-        .map(process_eval_result)
+        fast_evaluation_result.map(process_eval_result)
         .lash(lambda _: Success(solve_using_z3()))
         .unwrap()
     )
